@@ -21,8 +21,14 @@
  *   GRAMSIM_CHUNK=<n>        deliver at most n bytes per call (short reads)
  *   GRAMSIM_SKEW_HEAP=<n>    leak one malloc(n) before main
  *   GRAMSIM_SKEW_MMAP=<n>    leak one anonymous mmap of n bytes before main
- *   GRAMSIM_LOG=<path>       append one line per call: "<len> <flags> <ret>", and one line
- *                            "S <heap> <mmap>" when the constructor displaced the layout
+ *   GRAMSIM_CLOCK=<sec>      simulated clock: every clock_gettime / gettimeofday / time call
+ *   GRAMSIM_CLOCK_STEP=<ns>  returns <sec> plus <ns> times the number of earlier calls; when
+ *                            GRAMSIM_CLOCK is absent the real clock is used (never the case
+ *                            under the simulator)
+ *   GRAMSIM_PID=<n>          value returned by getpid()
+ *   GRAMSIM_LOG=<path>       append one line per call: "<len> <flags> <ret>", one line
+ *                            "S <heap> <mmap>" when the constructor displaced the layout, one
+ *                            line "T" per simulated clock read and "P" per simulated getpid
  *
  * Nothing here reads a clock or any other source the simulator does not own.
  */
@@ -34,8 +40,11 @@
 #include <stdlib.h>
 #include <string.h>
 #include <sys/mman.h>
+#include <sys/time.h>
 #include <sys/types.h>
+#include <time.h>
 #include <unistd.h>
+#include <dlfcn.h>
 
 #ifndef GRND_INSECURE
 #define GRND_INSECURE 0x0004
@@ -50,6 +59,11 @@ static int no_insecure = 0;
 static size_t chunk = 0;
 static int log_fd = -1;
 static int ready = 0;
+static int clock_owned = 0;
+static uint64_t clock_base = 0;
+static uint64_t clock_step = 0;
+static uint64_t clock_reads = 0;
+static long fake_pid = 0;
 
 static int hexval(int c) {
     if (c >= '0' && c <= '9') return c - '0';
@@ -85,6 +99,15 @@ static void init_once(void) {
     if (n && n[0] == '1') no_insecure = 1;
     const char *c = getenv("GRAMSIM_CHUNK");
     if (c) chunk = (size_t)strtoul(c, NULL, 10);
+    const char *cb = getenv("GRAMSIM_CLOCK");
+    if (cb) {
+        clock_owned = 1;
+        clock_base = strtoull(cb, NULL, 10);
+        const char *cs = getenv("GRAMSIM_CLOCK_STEP");
+        clock_step = cs ? strtoull(cs, NULL, 10) : 1000000ULL;
+    }
+    const char *fp = getenv("GRAMSIM_PID");
+    if (fp) fake_pid = strtol(fp, NULL, 10);
     const char *l = getenv("GRAMSIM_LOG");
     if (l) log_fd = open(l, O_WRONLY | O_CREAT | O_APPEND | O_CLOEXEC, 0644);
 }
@@ -114,7 +137,9 @@ __attribute__((constructor)) static void gramsim_ctor(void) {
     if (m) {
         size_t n = (size_t)strtoul(m, NULL, 10);
         if (n) {
-            void *p = mmap(NULL, n, PROT_READ | PROT_WRITE, MAP_PRIVATE | MAP_ANONYMOUS, -1, 0);
+            /* Address space only: glibc places thread arenas at 64 MiB-aligned addresses, so
+               the displacement has to be of that order to move a worker thread's heap at all. */
+            void *p = mmap(NULL, n, PROT_NONE, MAP_PRIVATE | MAP_ANONYMOUS | MAP_NORESERVE, -1, 0);
             if (p != MAP_FAILED) did_mmap = n; /* leaked on purpose */
         }
     }
@@ -153,4 +178,74 @@ ssize_t getrandom(void *buf, size_t buflen, unsigned int flags) {
     }
     log_call(buflen, flags, (long)n);
     return (ssize_t)n;
+}
+
+static void log_mark(const char *mark) {
+    if (log_fd < 0) return;
+    ssize_t w = write(log_fd, mark, strlen(mark));
+    (void)w;
+}
+
+/* Simulated time: seconds since the epoch chosen by the plan, advancing by a fixed step per read. */
+static void sim_now(uint64_t *sec, uint64_t *nsec) {
+    uint64_t total = clock_step * clock_reads++;
+    *sec = clock_base + total / 1000000000ULL;
+    *nsec = total % 1000000000ULL;
+    log_mark("T\n");
+}
+
+int clock_gettime(clockid_t clk, struct timespec *ts) {
+    init_once();
+    if (!clock_owned) {
+        static int (*real)(clockid_t, struct timespec *) = NULL;
+        if (!real) real = (int (*)(clockid_t, struct timespec *))dlsym(RTLD_NEXT, "clock_gettime");
+        return real ? real(clk, ts) : -1;
+    }
+    uint64_t s, n;
+    sim_now(&s, &n);
+    if (ts) {
+        ts->tv_sec = (time_t)s;
+        ts->tv_nsec = (long)n;
+    }
+    return 0;
+}
+
+int gettimeofday(struct timeval *tv, void *tz) {
+    init_once();
+    if (!clock_owned) {
+        static int (*real)(struct timeval *, void *) = NULL;
+        if (!real) real = (int (*)(struct timeval *, void *))dlsym(RTLD_NEXT, "gettimeofday");
+        return real ? real(tv, tz) : -1;
+    }
+    uint64_t s, n;
+    sim_now(&s, &n);
+    if (tv) {
+        tv->tv_sec = (time_t)s;
+        tv->tv_usec = (suseconds_t)(n / 1000);
+    }
+    return 0;
+}
+
+time_t time(time_t *out) {
+    init_once();
+    if (!clock_owned) {
+        static time_t (*real)(time_t *) = NULL;
+        if (!real) real = (time_t (*)(time_t *))dlsym(RTLD_NEXT, "time");
+        return real ? real(out) : (time_t)-1;
+    }
+    uint64_t s, n;
+    sim_now(&s, &n);
+    if (out) *out = (time_t)s;
+    return (time_t)s;
+}
+
+pid_t getpid(void) {
+    init_once();
+    if (!fake_pid) {
+        static pid_t (*real)(void) = NULL;
+        if (!real) real = (pid_t (*)(void))dlsym(RTLD_NEXT, "getpid");
+        return real ? real() : -1;
+    }
+    log_mark("P\n");
+    return (pid_t)fake_pid;
 }
